@@ -28,6 +28,7 @@ def handle (line : String) : String :=
   | "hr" :: rest => Drv.verbatimLine "hr" rest
   | "blockloop" :: rest => Drv.blockLoopLine rest
   | "miniblock" :: rest => Drv.miniLine rest
+  | "qblock" :: rest => Drv.qLine rest
   | "unescape" :: rest => Drv.unescapeLine rest
   | "inline" :: rest => Drv.inlineLine rest
   | "textjoin" :: rest => Drv.textJoinLine rest
